@@ -104,6 +104,8 @@ def check (j : Json) : Except String (Option String) := do
     match beginBlock pre h now with
     | .error e => return some s!"field=panic model predicts a BeginBlock panic ({e}) impl=ok"
     | .ok s' => return diff s' post
+  -- a restart of the network from its own exported genesis changes nothing the module holds
+  if let .str "restart" := opj then return diff pre post
   if let .ok pj := opj.getObjVal? "setParams" then
     -- a governance parameter change: only the parameters move (`Event.setParams` of C15)
     let p : Params ← fromJson? pj
